@@ -9,7 +9,7 @@ exit : 0 held, 1 violation, 2 harness error / inconclusive
 """
 import argparse, collections, glob, hashlib, itertools, json, multiprocessing, os, re, shutil, subprocess, sys, time, zlib
 
-VERIF = "/verif"
+VERIF = os.environ.get("VERIF_HOME", "/verif")
 OUT = os.environ.get("VERIF_OUT", VERIF)
 KNOWN_FILE = VERIF + "/KNOWN_FINDINGS.txt"
 SCHEMA = "/root/.vp/EVIDENCE.schema.json"
